@@ -64,6 +64,8 @@ def gen_c16(seed, policy=None):
             c.update({"sa": "p", "da": "i"})
         conns.append(c)
         agents[b] = {"target": "Sa", "attr": rng.choice(["i", "i2"]), "p": rng.choice([0.5, 0.8, 1.0]), "eid": f"E{rng.randrange(sims[0]['nent'])}"}
+        if sims[0]["nent"] == 2:
+            agents[b]["also"] = [e for e in ("E0", "E1") if e != agents[b]["eid"]]
     if rng.random() < 0.4:
         sims.append({"sid": "Sd", "type": "time-based", "gpath": []})
         conns.append({"src": "Sd", "dst": "Sa", "sa": "p", "da": rng.choice(["i", "i2"])})
@@ -108,13 +110,41 @@ def gen_c09(seed, policy=None):
     if rng.random() < 0.3:  # a second, disjoint loop
         sims += [{"sid": "Se", "type": "hybrid", "gpath": [5]}]
         conns.append({"src": "Se", "dst": "Se", "sa": "e", "da": "ti", "weak": True})
-    scn = S.normalize({"sims": sims, "conns": conns, "until": rng.randint(1, 3), "maxloop": rng.choice([1, 2, 3, 5]),
+    scn = S.normalize({"sims": sims, "conns": conns, "until": rng.randint(1, 3), "maxloop": rng.choice([0, 1, 2, 3, 5]),
                        "lazy": rng.random() < 0.5, "cache": rng.random() < 0.5})
     beh = {"kind": "random", "p_event": rng.choice([0.5, 0.8, 1.0]), "p_future": 0.0, "ev_next": [None, None, 1]}
     yield {"id": [seed, scn["maxloop"]], "scn": scn, "seed": seed, "behaviour": beh, "policy": dict(policy or {})}
 
 
-explore.GENERATORS.update({"c13": gen_c13, "c16": gen_c16, "c09": gen_c09})
+def gen_paths(seed, policy=None, behaviour=None):
+    """Several trigger paths with DIFFERENT total delays between one pair of simulators (a direct time-shifted connection and
+    a chain of plain ones), followed by a tail of descendants; sparse source; every start order.  The distances of the
+    triggering ancestors (progress, max_advance) must be the minimum over all paths - also for the descendants."""
+    rng = random.Random(f"paths|{seed}")
+    names = ["Sa", "Sb", "Sc", "Sd", "Se", "Sf"]
+    nmid, ntail = rng.randint(1, 2), rng.randint(1, 2)
+    a, mids, b, tail = names[0], names[1:1 + nmid], names[1 + nmid], names[2 + nmid:2 + nmid + ntail]
+    sims = [{"sid": a, "type": "time-based"}] + [{"sid": x, "type": rng.choice(["event-based", "hybrid"])} for x in mids + [b] + tail]
+    conns = [{"src": a, "dst": b, "sa": "p", "da": "ti", "shift": rng.choice([1, 1, 2, 3])}]
+    prev = a
+    for x in mids + [b]:
+        conns.append({"src": prev, "dst": x, "sa": "p" if prev == a else "e", "da": "ti", "shift": 1 if rng.random() < 0.1 else 0})
+        prev = x
+    prev = b
+    for x in tail:
+        conns.append({"src": prev, "dst": x, "sa": "e", "da": "ti", "shift": 1 if rng.random() < 0.15 else 0})
+        prev = x
+    rng.shuffle(conns)
+    order = [x["sid"] for x in sims]
+    rng.shuffle(order)
+    scn = S.normalize({"sims": sims, "conns": conns, "until": rng.randint(5, 8), "order": order})
+    beh = dict({"kind": "random", "tb_next": [rng.choice([2, 3]), rng.choice([1, 2, 3])], "p_event": rng.choice([0.8, 1.0]), "ev_next": [None], "p_future": 0.0},
+               **(behaviour or {}))
+    for lazy in (True, False):
+        yield {"id": [seed, lazy], "scn": dict(scn, lazy=lazy, cache=rng.random() < 0.5), "seed": seed, "behaviour": beh, "policy": dict(policy or {})}
+
+
+explore.GENERATORS.update({"c13": gen_c13, "c16": gen_c16, "c09": gen_c09, "paths": gen_paths})
 
 # --------------------------------------------------------------------------- profiles
 
@@ -124,11 +154,15 @@ PROFILES = {
     "C02": [("random", {"fam": {"p_async": 0.1}, "behaviour": {"p_future": 0.4, "ev_next": [None, 1, 2, 3]}}),
             ("random", {"fam": {"types": ["event-based", "hybrid"], "until": (3, 5)}, "behaviour": {"p_future": 0.5, "future": [0, 1, 2, 3]}})],
     "C03": [("random", {"fam": {"shifts": (0, 0, 1, 2, 3), "until": (3, 5), "p_two_entities": 0.4}}),
+            ("random", {"fam": {"groups": False, "nsims": (2, 3), "until": (4, 6), "types": ["time-based", "time-based", "hybrid"]},
+                        "behaviour": {"tb_next": [1, 1, 2, 3], "recur": 2}, "frac": 0.4}),
             ("random", {"fam": {"groups": False, "nsims": (2, 3), "until": (3, 6)}, "behaviour": {"tb_next": [1, 2, 4], "p_future": 0.3, "p_none": 0.2}})],
     "C05": [("random", {"fam": {"nsims": (2, 5), "nconns": (1, 7), "until": (2, 5), "p_async": 0.1}}),
-            ("random", {"fam": {"shifts": (0, 1, 2, 3)}, "behaviour": {"p_future": 0.5, "future": [0, 1, 2, 3]}, "policy": {"early": 0.6}})],
+            ("random", {"fam": {"shifts": (0, 1, 2, 3)}, "behaviour": {"p_future": 0.5, "future": [0, 1, 2, 3]}, "policy": {"early": 0.6}}),
+            ("paths", {"frac": 0.3})],
     "C07": [("random", {"fam": {"types": ["event-based", "hybrid", "hybrid"], "until": (3, 5)}, "behaviour": {"ev_next": [None, 1, 2, 3]}}),
-            ("random", {"fam": {"types": ["hybrid"], "nsims": (2, 3), "nconns": (2, 5), "until": (3, 5)}, "policy": {"early": 0.6}})],
+            ("random", {"fam": {"types": ["hybrid"], "nsims": (2, 3), "nconns": (2, 5), "until": (3, 5)}, "policy": {"early": 0.6}}),
+            ("paths", {"frac": 0.3})],
     "C10": [("random", {"fam": {"p_async": 0.1}, "lazy": (True,)}),
             ("random", {"fam": {"types": ["time-based", "hybrid"], "nconns": (2, 6)}, "lazy": (True,), "behaviour": {"tb_next": [1, 1, 2, 3]}})],
     "C09": [("c09", {}), ("random", {"fam": {"weak": 0.9, "maxloop": 2, "siblings": False}, "behaviour": {"p_event": 0.9}})],
@@ -173,7 +207,9 @@ def run(prop, tier, seed, model_part=None):
     base = seed * 1_000_003
     for gi, (gname, gkw) in enumerate(PROFILES[prop]):
         lo = base + gi * 500_000
-        pairs += explore.run_generated(gname, gkw, (lo, lo + n))
+        gkw = dict(gkw)
+        frac = gkw.pop("frac", 1.0)  # a profile may take only a fraction of the tier's seeds
+        pairs += explore.run_generated(gname, gkw, (lo, lo + max(1, int(n * frac))))
     # the repository's own scenarios (tests/scenarios/*.create_scenario, with the suite's simulators) under controlled schedules
     nsuite = 0
     if prop in SUITE_PROPS:
